@@ -7,6 +7,7 @@ import (
 	"time"
 
 	"github.com/influxdata/kapacitor"
+	"github.com/influxdata/kapacitor/command"
 	"github.com/influxdata/kapacitor/udf"
 	"github.com/influxdata/kapacitor/udf/agent"
 )
@@ -25,6 +26,7 @@ type pipeSocket struct {
 	out       *agentOut
 	ag        *agent.Agent
 	h         *echoHandler
+	agentDone chan struct{}
 }
 
 func (s *pipeSocket) Open() error {
@@ -44,7 +46,8 @@ func (s *pipeSocket) Open() error {
 	if err := s.ag.Start(); err != nil {
 		return err
 	}
-	go func() { _ = s.ag.Wait() }()
+	s.agentDone = make(chan struct{})
+	go func() { _ = s.ag.Wait(); close(s.agentDone) }()
 	s.svc.mu.Lock()
 	s.svc.socks = append(s.svc.socks, s)
 	s.svc.mu.Unlock()
@@ -74,6 +77,57 @@ type udfService struct {
 var udfInfos = map[string]udf.Info{
 	"echo":      {Wants: agent.EdgeType_STREAM, Provides: agent.EdgeType_STREAM, Options: map[string]*agent.OptionInfo{}},
 	"echoBatch": {Wants: agent.EdgeType_BATCH, Provides: agent.EdgeType_BATCH, Options: map[string]*agent.OptionInfo{}},
+	// the same echo agent as a "process": kapacitor.UDFProcess over a fake command.Commander
+	"echoProc": {Wants: agent.EdgeType_STREAM, Provides: agent.EdgeType_STREAM, Options: map[string]*agent.OptionInfo{}},
+}
+
+// fakeCmd is the command.Command of the in-process "UDF process": stdin/stdout are the two pipes of a
+// pipeSocket, stderr says one line and ends when the agent ends, Wait returns when the agent has finished
+// (a process exits after EOF on its stdin), Kill breaks the pipes.
+type fakeCmd struct {
+	sock   *pipeSocket
+	stderr *fragPipe
+	done   chan struct{}
+}
+
+func (c *fakeCmd) Start() error {
+	c.stderr = newFragPipe(nil)
+	c.done = make(chan struct{})
+	if err := c.sock.Open(); err != nil {
+		return err
+	}
+	c.stderr.Write([]byte("echo agent started\n"))
+	go func() {
+		<-c.sock.agentDone
+		c.stderr.Close()
+		close(c.done)
+	}()
+	return nil
+}
+func (c *fakeCmd) Wait() error                        { <-c.done; return nil }
+func (c *fakeCmd) Stdin(io.Reader)                    {}
+func (c *fakeCmd) Stdout(io.Writer)                   {}
+func (c *fakeCmd) Stderr(io.Writer)                   {}
+func (c *fakeCmd) StdinPipe() (io.WriteCloser, error) { return lazyIn{c}, nil }
+func (c *fakeCmd) StdoutPipe() (io.Reader, error)     { return lazyOut{c}, nil }
+func (c *fakeCmd) StderrPipe() (io.Reader, error)     { return lazyErr{c}, nil }
+func (c *fakeCmd) Kill()                              { c.sock.toAgent.Break(); c.sock.fromAgent.Close() }
+
+// UDFProcess asks for the pipes before it starts the command; ours exist once Start has run.
+type lazyIn struct{ c *fakeCmd }
+type lazyOut struct{ c *fakeCmd }
+type lazyErr struct{ c *fakeCmd }
+
+func (l lazyIn) Write(b []byte) (int, error) { return l.c.sock.toAgent.Write(b) }
+func (l lazyIn) Close() error                { return l.c.sock.toAgent.Close() }
+func (l lazyOut) Read(b []byte) (int, error) { return l.c.sock.fromAgent.Read(b) }
+func (l lazyErr) Read(b []byte) (int, error) { return l.c.stderr.Read(b) }
+
+type fakeCommander struct{ svc *udfService }
+
+func (f fakeCommander) NewCommand(command.Spec) command.Command {
+	i := udfInfos["echoProc"]
+	return &fakeCmd{sock: &pipeSocket{svc: f.svc, wants: i.Wants, provides: i.Provides}}
 }
 
 func newUDFService(frag func() func() int) *udfService {
@@ -83,7 +137,7 @@ func newUDFService(frag func() func() int) *udfService {
 	return &udfService{frag: frag}
 }
 
-func (u *udfService) List() []string { return []string{"echo", "echoBatch"} }
+func (u *udfService) List() []string { return []string{"echo", "echoBatch", "echoProc"} }
 func (u *udfService) Info(name string) (udf.Info, bool) {
 	i, ok := udfInfos[name]
 	return i, ok
@@ -93,7 +147,12 @@ func (u *udfService) Create(name, taskID, nodeID string, d udf.Diagnostic, abort
 	if !ok {
 		return nil, errors.New("unknown udf")
 	}
-	f := kapacitor.NewUDFSocket(taskID, nodeID, &pipeSocket{svc: u, wants: i.Wants, provides: i.Provides}, d, u.timeout, abortCallback)
+	var f udf.Interface
+	if name == "echoProc" {
+		f = kapacitor.NewUDFProcess(taskID, nodeID, fakeCommander{u}, command.Spec{Prog: "echo-agent"}, d, u.timeout, abortCallback)
+	} else {
+		f = kapacitor.NewUDFSocket(taskID, nodeID, &pipeSocket{svc: u, wants: i.Wants, provides: i.Provides}, d, u.timeout, abortCallback)
+	}
 	u.mu.Lock()
 	u.udfs = append(u.udfs, f)
 	u.mu.Unlock()
